@@ -108,6 +108,12 @@ CHECKS = {
          "two-ulp order property.",
          "Trusted: the e^x enclosure oracle (derivation stated in Spec/ExpEnclosure.lean, soundness not yet a Lean theorem), Lean kernel, extractor, harness/driver. The headline bound holds per sampled input only.",
          "Lean 4 executable model + interval-arithmetic oracle + differential correspondence; partial proof", "DESIGN.md §5 C13"),
+ "C14": ("Kernel-checked Lean theorems: for ALL f32 and f64 bit patterns the model of try_parse_from_f32/f64 (normal path with trailing-zero reduction and powers of five, subnormal routines with the "
+         "multi-limb constants regenerated from the source, +-0) denotes exactly the IEEE value (-1)^s m 2^e, NaN/inf give errors (C14_ofF32_exact, C14_ofF64_exact, C14_nan_inf); the limb constants "
+         "equal 5^149 and 5^1074 (kernel evaluation). Correspondence: exact comparison on every exponent field and random patterns; bit-exact f -> decimal -> f64 round trip; to_f64 on arbitrary "
+         "decimals judged in exact rational arithmetic (sign, 2^-48, subnormal step, infinity only near MAX). to_f64's internals use f64 primitives and are judged per input, not modelled.",
+         NOTE_COMMON + " PARTIAL for to_f64: its tolerance is checked per sampled input (IEEE behaviour of BigUint::to_f64, powi, str::parse is outside the model).",
+         "Lean 4 proof (all bit patterns) + exact-rational oracle for to_f64 + differential correspondence", "DESIGN.md §5 C14"),
 }
 
 NOT_YET = "check under construction in this round (not yet claimed); see DESIGN.md §11 order of work"
